@@ -215,7 +215,16 @@ func main() {
 			}
 		}
 		nObl := len(w.Obls)
-		if vi == 0 {
+		lemmasWanted := true
+		if cfg != nil && len(cfg.OnlyKinds) > 0 {
+			lemmasWanted = false
+			for _, k := range cfg.OnlyKinds {
+				if k == "lemma" {
+					lemmasWanted = true
+				}
+			}
+		}
+		if vi == 0 && lemmasWanted {
 			for len(queue) > 0 {
 				n := queue[0]
 				queue = queue[1:]
